@@ -267,7 +267,7 @@ pub fn run(tier: Tier) -> Report {
                             replay: json!({"front": front, "trace": f.trace.iter().map(|(i, b)| json!([i, b])).collect::<Vec<_>>(), "tier_thorough": tier.thorough()}),
                         });
                     }
-                    if ex.found.is_empty() && !tier.thorough() {
+                    if ex.found.is_empty() && !tier.thorough() && !ex.cap_hit {
                         crate::sr::cross_check(fresh(front, &g, &classes), ex.states, "chunked-writer graph", &mut rep);
                     }
                     if ex.found.is_empty() {
